@@ -1,4 +1,5 @@
 import Gmx.Lemmas.PerpValue
+import Gmx.Props.C03
 /-! Ingredients of the end-to-end round-trip bound (C10). -/
 namespace Gmx.Lem
 open Gmx Gmx.Perp
@@ -873,5 +874,155 @@ def rtOutcome : Option (Int × Int × Nat × Nat) := do
   let (m1, p1, r1) ← (increase 64 (10 ^ 9) cM0 rtPerp wPrices { isLong := false, collLong := false } (100 * 10 ^ 9) (500 * 10 ^ 9)).toOption
   let (_, _, r2) ← (decrease 64 (10 ^ 9) m1 rtPerp wPrices p1 (500 * 10 ^ 9) 0 ⟨false, false, true⟩).toOption
   pure (r1.impactValue, r2.impactValue, r2.impactDiff, r2.output + r2.secondary + r2.userOut + r2.userSec)
+
+
+/-! ### the closing's pool delta is the reverse of the opening's (no hypothesis left) -/
+
+theorem applyDelta_cfg {W : Nat} {m m' : Market} {il : Bool} {d : Int} (h : m.applyDelta W il d = some m') : m'.cfg = m.cfg := by
+  unfold Market.applyDelta at h
+  split at h
+  · cases h
+  · split at h
+    · cases h; rfl
+    · split at h
+      · cases h
+      · cases h; rfl
+
+theorem updateTotalBorrowingM_cfg {W U : Nat} {m m' : Market} {p : Pos} {a b : Nat}
+    (h : updateTotalBorrowingM W U m p a b = .ok m') : m'.cfg = m.cfg := by
+  unfold updateTotalBorrowingM at h
+  split at h
+  · cases h
+  · cases h; rfl
+
+theorem updateOpenInterest_cfg {W : Nat} {m m' : Market} {il cl : Bool} {a b : Int}
+    (h : updateOpenInterest W m il cl a b = .ok m') : m'.cfg = m.cfg := by
+  unfold updateOpenInterest at h
+  split at h
+  · cases h; rfl
+  · repeat' (split at h)
+    all_goals first | (cases h; done) | skip
+    cases h
+    unfold setOitPool setOiPool
+    cases il <;> rfl
+
+theorem setCollPool_cfg (m : Market) (il : Bool) (p : Pool) : (setCollPool m il p).cfg = m.cfg := by
+  unfold setCollPool; cases il <;> rfl
+
+/-- an increase does not touch the configuration. -/
+theorem increaseCore_cfg {W U : Nat} {m m' : Market} {c : PerpCfg} {pr : Prices} {p p' : Pos} {ci sd : Nat}
+    {r : IncreaseReport} (h : increaseCore W U m c pr p ci sd = .ok (m', p', r)) : m'.cfg = m.cfg := by
+  unfold increaseCore at h
+  expose_do h
+  all_goals
+    (cases h
+     have hprim := applyDelta_cfg (orF_ok ‹orF (Market.applyDelta W _ p.collLong _) = Except.ok _›)
+     have h5 := updateTotalBorrowingM_cfg ‹updateTotalBorrowingM _ _ _ _ _ _ = Except.ok _›
+     have h6 := updateOpenInterest_cfg ‹updateOpenInterest _ _ _ _ _ _ = Except.ok _›
+     rw [h6, h5]
+     simp only [setCollPool_cfg]
+     rw [hprim])
+
+/-- what `position_price_impact` returns is at most the impact of the change on the real open
+interest (the virtual inventory only ever replaces a negative impact by a more negative one). -/
+theorem positionPriceImpact_le_real {W U : Nat} {m : Market} {isLong vi : Bool} {sd v : Int} {bc : BalanceChange}
+    (h : positionPriceImpact W U m isLong sd vi = some (v, bc)) :
+    ∃ ol os D x b, openInterest W m true = some ol ∧ openInterest W m false = some os ∧
+      PoolDelta.tryNew W ol os (if isLong then sd else 0) (if isLong then 0 else sd) 1 1 = some D ∧
+      D.priceImpact W U m.cfg.positionImpact = some (x, b) ∧ v ≤ x := by
+  unfold positionPriceImpact at h
+  simp only at h
+  split at h
+  · rename_i ol os hol hos
+    cases hD : PoolDelta.tryNew W ol os (if isLong then sd else 0) (if isLong then 0 else sd) 1 1 with
+    | none => simp [hD] at h
+    | some D =>
+      simp only [hD, Option.bind] at h
+      cases hx : D.priceImpact W U m.cfg.positionImpact with
+      | none => simp [hx] at h
+      | some xb =>
+        obtain ⟨x, b⟩ := xb
+        simp only [hx] at h
+        refine ⟨ol, os, D, x, b, hol, hos, hD, hx, ?_⟩
+        split at h
+        · cases h; exact Int.le_refl _
+        · repeat' (split at h)
+          all_goals first | (cases h; done) | skip
+          all_goals first | (cases h; exact Int.le_refl _) | skip
+          all_goals (cases h; omega)
+  · cases h
+
+theorem tryNew_fields {W a b : Nat} {dL dS : Int} {D : PoolDelta} (h : PoolDelta.tryNew W a b dL dS 1 1 = some D) :
+    D.curL = a ∧ D.curS = b ∧ (D.nextL : Int) = a + dL ∧ (D.nextS : Int) = b + dS := by
+  unfold PoolDelta.tryNew at h
+  repeat' (split at h)
+  all_goals first | (cases h; done) | skip
+  rename_i _ cl hcl _ cs hcs _ nl hnl _ ns hns
+  cases h
+  have e1 : cl = a := by unfold checkedMul toU at hcl; split at hcl <;> cases hcl; omega
+  have e2 : cs = b := by unfold checkedMul toU at hcs; split at hcs <;> cases hcs; omega
+  have e3 := C01.checkedAddWithSigned_spec hnl
+  have e4 := C01.checkedAddWithSigned_spec hns
+  subst e1; subst e2
+  refine ⟨rfl, rfl, ?_, ?_⟩ <;> dsimp only <;> omega
+
+
+/-- open interest of both sides after an increase: the position's side grew by the size. -/
+theorem increaseCore_openInterest {W U : Nat} {m m' : Market} {c : PerpCfg} {pr : Prices} {p p' : Pos} {ci sd : Nat}
+    {r : IncreaseReport} (h : increaseCore W U m c pr p ci sd = .ok (m', p', r)) :
+    m'.oiL.long + m'.oiL.short = m.oiL.long + m.oiL.short + (if p.isLong then sd else 0) ∧
+    m'.oiS.long + m'.oiS.short = m.oiS.long + m.oiS.short + (if p.isLong then 0 else sd) := by
+  obtain ⟨⟨k1, _, _⟩, ko, _⟩ := increaseCore_book h
+  have a1 := ko true true; have a2 := ko true false; have a3 := ko false true; have a4 := ko false false
+  unfold bk oiPool Pool.amount at k1 a1 a2 a3 a4
+  cases hl : p.isLong <;> cases hc : p.collLong <;>
+    simp only [hl, hc, Bool.false_eq_true, if_false, if_true, and_self, and_true, and_false, not_true_eq_false, not_false_eq_true,
+      forall_const, Prod.mk.injEq, reduceCtorEq] at k1 a1 a2 a3 a4 ⊢ <;> omega
+
+/-- **the closing's impact is the reverse of the opening's on the market the opening left**:
+whatever `position_price_impact` returns for `+size` on the market before and for `−size` on the
+market after the increase sums to at most one unit of value — with or without virtual inventory
+for positions (it only lowers either value). This is the link `hxy` of `open_close_bound`. -/
+theorem close_impact_is_reverse_on_market {W U : Nat} {m m1 : Market} {c : PerpCfg} {pr : Prices} {p p1 : Pos} {ci S : Nat}
+    {r1 : IncreaseReport} (hcore : increaseCore W U m c pr p ci S = .ok (m1, p1, r1)) {x y : Int} {bx by' : BalanceChange}
+    (hx : positionPriceImpact W U m p.isLong (S : Int) true = some (x, bx))
+    (hy : positionPriceImpact W U m1 p.isLong (-(S : Int)) true = some (y, by')) : x + y ≤ 1 := by
+  obtain ⟨ol, os, D, xr, b1, hol, hos, hD, hxr, hle1⟩ := positionPriceImpact_le_real hx
+  obtain ⟨ol1, os1, D1, yr, b2, hol1, hos1, hD1, hyr, hle2⟩ := positionPriceImpact_le_real hy
+  rw [increaseCore_cfg hcore] at hyr
+  obtain ⟨o1, o2⟩ := increaseCore_openInterest hcore
+  unfold openInterest at hol hos hol1 hos1
+  simp only [if_true, Bool.false_eq_true, if_false] at hol hos hol1 hos1
+  have e1 := checkedAdd_some hol; have e2 := checkedAdd_some hos
+  have e3 := checkedAdd_some hol1; have e4 := checkedAdd_some hos1
+  obtain ⟨f1, f2, f3, f4⟩ := tryNew_fields hD
+  obtain ⟨g1, g2, g3, g4⟩ := tryNew_fields hD1
+  have hrev : D1 = D.rev := by
+    cases D; cases D1
+    simp only [PoolDelta.rev, PoolDelta.mk.injEq] at *
+    cases hl : p.isLong <;> simp only [hl, Bool.false_eq_true, if_false, if_true] at * <;> omega
+  rw [hrev] at hyr
+  have := (C03.roundtrip_le_one hxr hyr).1
+  omega
+
+/-- **opening a fresh position and closing it at once at the same prices returns at most the
+deposit plus one token unit** — no hypothesis on the impacts left (pnl token = collateral token,
+positive cap factor ≤ negative cap factor). -/
+theorem open_close_bound_full {W U : Nat} {m m1 m2 : Market} {c : PerpCfg} {pr : Prices} {p0 p1 p2 : Pos} {ci S : Nat}
+    {r1 : IncreaseReport} {r2 : DecreaseReport} {fl : DecreaseFlags}
+    (hinc : increase W U m c pr p0 ci S = .ok (m1, p1, r1))
+    (hfresh : p0.sizeUsd = 0 ∧ p0.collateral = 0) (hS : S ≠ 0) (hsame : p0.isLong = p0.collLong)
+    (hdec : decrease W U m1 c pr p1 S 0 fl = .ok (m2, p2, r2))
+    (hcap : c.maxPosImpactFactor ≤ c.maxNegImpactFactor)
+    (hidx : pr.index.min ≤ pr.index.max) (hcp : (pr.collateral p0.collLong).min ≤ (pr.collateral p0.collLong).max) :
+    r2.output + r2.secondary + r2.userOut + r2.userSec ≤ ci + 1 := by
+  refine open_close_bound hinc hfresh hS hsame hdec hcap hidx hcp ?_
+  intro x y bx by' hx hy
+  unfold increase at hinc
+  split at hinc
+  · cases hinc
+  · have hl : (initIfEmpty p0 m).isLong = p0.isLong := by unfold initIfEmpty; split <;> rfl
+    rw [← hl] at hx hy
+    exact close_impact_is_reverse_on_market hinc hx hy
 
 end Gmx.Lem
